@@ -394,14 +394,16 @@ def v1(F, rep):
     gate = None
     for sb in sorted(r.normal_blocks()):
         st = r.term(sb)
-        if st["k"] == "switch" and re.match(r"^Ne\(var\(version\), K%d\)$" % kv, flow.describe(r, st["d"], names=True) or ""):
+        m = re.match(r"^(Ne|Eq)\(var\(version\), K%d\)$" % kv, flow.describe(r, st["d"], names=True) or "") if st["k"] == "switch" else None
+        if m:
             f = [x for v, x in st["targets"] if v == 0]
-            gate = (sb, f[0] if f else None, st["otherwise"])
+            # (block, edge taken when the version matches, edge taken when it does not) — written as != or ==
+            gate = (sb, f[0] if f else None, st["otherwise"]) if m.group(1) == "Ne" else (sb, st["otherwise"], f[0] if f else None)
     ok = False
     if gate and gate[1] is not None:
         from .guard import _leads_only_to_err
         loops = [bb for bb, t in r.calls() if strip_generics(callee_def(t)).endswith("read_chunk_block")]
-        ok = bool(loops) and all(r.edge_dominates(gate[0], gate[1], x) for x in loops) and _leads_only_to_err(F, r, gate[2])
+        ok = bool(loops) and gate[2] is not None and all(r.edge_dominates(gate[0], gate[1], x) for x in loops) and _leads_only_to_err(F, r, gate[2])
     rep.add("V1", "wrapper-version-gate", ok, where, "`version != %d` fails into Err and its pass edge dominates every read_chunk_block call" % kv)
     ver = flow.describe(r, {"l": r.locals_named("version")[0], "p": []}) if r.locals_named("version") else ""
     rep.add("V1", "wrapper-version-is-first-byte", "read_u8" in ver, where, "version := %s" % ver[:80])
